@@ -35,6 +35,9 @@ CLAIMS = {
  "C19": dict(cat="model_checking", ref="6/C19", tech="TLC-enumerated API lifecycles (SluLife) executed under an allocation ledger with red zones; every call's ledger validated by TLC (no leak per outcome class, no double/unknown free, guards intact, nothing left at the end); same behaviours replayed under ASan+UBSan (and valgrind in the thorough tier) as observers",
    text="SluLife models which library-owned objects the caller holds and which calls are legal next (fresh / reuse / solve / query / short workspace / failed growth / singular / rejected / destroy); TLC enumerates all 21,752 lifecycles of length <= 4, a seeded sample (all in thorough) is executed in four types. The USER_MALLOC seam gives a ledger with call sites, red zones and poisoned fresh blocks; TLC checks after every call that nothing of the library's own is still allocated (per outcome class), that each free hit a live block and guard bytes are intact, and that nothing is left once the caller destroyed what it was handed. The same scripts plus the factor / singular / expert / storage families (fill estimate 1: arrays end exactly at capacity) run under clang ASan+UBSan; a report inside libsuperlu is a violation keyed by kind and function.",
    note="Memory errors that neither damage a red zone nor trip a sanitizer are not seen. Known findings: leaks on out-of-space returns of the factor routines, crash on structurally singular input (shared with C04)."),
+ "C11": dict(cat="model_checking", ref="6/C11", tech="SluEquil in the log domain (exponent arithmetic with IEEE clamping / underflow / overflow semantics) model-checked over exponent sets spanning the whole range; every output of ?gsequ/?laqgs on DL inputs compared exactly with the specification by TLC",
+   text="TLC checks for all 2x2 (thorough: 2x3, 3x2) matrices over {0, smallest subnormal, around the smallest normal, around 1, near overflow} that the transcribed algorithm yields factors inside the safe range, unit row / column maxima unless clamped, the info convention and a legal equed. Conformance: ~10^3 (10^4) generated matrices up to 4x4 with entries +-2^e anywhere in the exponent range, empty lines, explicit zeros, complex entries as |re|+|im|; TLC compares info, R, C, rowcnd, colcnd, amax, equed and every scaled entry as exponents (no tolerance).",
+   note="Entries with arbitrary mantissas (rounding slice) are judged by ratcheck with a 4-ulp tolerance. One known finding (factor product overflow in the B branch)."),
 }
 
 def main():
